@@ -430,6 +430,12 @@ class RandomGen(object):
     if r < 0.63 and self.has('forxs'):
       v = self.fresh('e')
       c = ctx.sub(loop=True, ints=ctx.ints + [v], loopvars=ctx.loopvars + [v])
+      if self.has('break') and self.has('listops') and self.r.random() < 0.3:
+        # a one-shot iterator whose remaining contents are observed after the loop
+        self.tags.add('iterator')
+        it = self.fresh('it')
+        return (['%s = iter(xs)' % it, 'for %s in %s:' % (v, it)] + ind(self.block(c)) +
+                ['l = l + list(%s)' % it])
       return ['for %s in xs:' % v] + ind(self.block(c))
     if r < 0.66 and self.has('forenum'):
       self.tags.add('forenum')
